@@ -25,6 +25,7 @@ STRS = ['d'] + CH + [a + b for a in CH for b in CH]
 FLOATS = [0.5, 1.5, -2.0, math.inf, -math.inf, 1e300, -0.0]
 TUPLES = [(0, 0), (), (1,), (1, 2), ((1,), 'a'), (-1, math.inf)]
 LISTS = [[], [1], ['a', "'"], [[1], (2,)], [-3]]
+D2S = [{'u': None, 's': 1}, {'v': None, 's': 1}, {'u': None, 's': 2}, {'s': 1, 'u': None}]
 DICTS = [{'a': 1, 'b': 2}, {}, {'a': 1}, {'a': 1, 'b': 3}, {'a': 1, 'b': 2, 'c': 3}, {'z': [1]}]
 NAMES = [None, 'nm', 'P1', 'V01', 'V2x', "q'"]
 
@@ -41,6 +42,7 @@ class V0(param.Parameterized):
     t = param.Tuple(default=(0, 0), length=None) if False else param.Parameter(default=(0, 0))
     l = param.List(default=[])
     d = param.Dict(default={'a': 1, 'b': 2})
+    d2 = param.Dict(default={'u': None, 's': 1})
     sub = param.ClassSelector(class_=Inner, default=None)
 
 
@@ -75,7 +77,7 @@ def _same(x, y):
 
 def _compare(label, p, q, info, explicit_name):
     check('C20.same_class', type(q) is type(p), dict(info, got=type(q).__name__))
-    for n in ('i', 'f', 's', 't', 'l', 'd') + (('a', 'b') if isinstance(p, V2) else ()):
+    for n in ('i', 'f', 's', 't', 'l', 'd', 'd2') + (('a', 'b') if isinstance(p, V2) else ()):
         check(label, _same(getattr(p, n), getattr(q, n)), dict(info, name=n, orig=repr(getattr(p, n)), rebuilt=repr(getattr(q, n))))
     check(label, (p.sub is None) == (q.sub is None), dict(info, name='sub'))
     if p.sub is not None:
@@ -104,6 +106,7 @@ def prog(variant: int, grp: int, vi: int, vf: int, vs: int, vt: int, vl: int, vd
         n = None
     else:
         kw['d'] = DICTS[pick(vd, 0, len(DICTS) - 1)]
+        kw['d2'] = D2S[pick(vi, 0, 3)]
         sb = pick(sub, 0, 3)
         n = NAMES[pick(nm, 0, 1)]
         if sb == 1:
